@@ -241,6 +241,96 @@ def rounds_task(task):
     return res
 
 
+# ----------------------------------------------------------------------------- part X (escaping errors)
+# process_events is the last line of defence: whatever escapes run_to_completion - here an interpreter-internal
+# error injected at a seam (`_finish_flow` raises for the flow `boom`) - is reported as a ColangError event, also
+# when the flow reacting to that ColangError runs into the same error again (fault sequences).
+X_WATCHERS = {
+    "none": "",
+    "plain": '@loop("w2")\nflow errwatch2\n  match ColangError()\n  send W2()\n',
+    "faulty": '@loop("w2")\nflow errwatch2\n  match ColangError()\n  send W2()\n  start boom\n  send W2After()\n',
+    "faulty-twice": '@loop("w2")\nflow errwatch2\n  match ColangError()\n  start boom\n  match ColangError()\n  start boom\n',
+}
+
+
+def x_program(watcher, w_start, pos):
+    seq = {"at-start": [], "after-E1": ["match E1()"]}[pos]
+    victim = "flow victim\n" + ind(seq + ["start boom", "send VictimAfter()", "match Never()"])
+    boom = "flow boom\n  send Tick()\n"
+    main = "flow main\n" + (f"  {w_start} errwatch2\n" if watcher != "none" else "") + "  start victim\n  match Never()\n"
+    return "\n".join([victim, boom, X_WATCHERS[watcher], main])
+
+
+class _InjectedInternalError(Exception):
+    pass
+
+
+def x_task(task):
+    watcher, w_start, pos, maxlen = task
+    src = x_program(watcher, w_start, pos)
+    res = {"programs": 1, "histories": 0, "events": 0, "injected_errors": 0, "viol": []}
+    info0 = {"engine": "C10-X", "source": src, "watcher": watcher, "watcher_start": w_start, "position": pos}
+    try:
+        rt = _runtime(src)
+    except Exception as e:
+        res["viol"].append(("harness:program-rejected", f"{e!r}", info0))
+        return res
+    n_elements = sum(len(c.elements) for c in rt.flow_configs.values())
+    budget = 50 * (n_elements + 10)
+    orig = sm._finish_flow
+    count = [0]
+
+    def faulty_finish(state, flow_state, *a, **k):
+        if flow_state.flow_id == "boom":
+            count[0] += 1
+            raise _InjectedInternalError("injected interpreter error while finishing flow boom")
+        return orig(state, flow_state, *a, **k)
+
+    sm._finish_flow = faulty_finish
+    loop = asyncio.new_event_loop()
+    alpha = [{"type": "E1"}, {"type": "X"}]
+    try:
+        for n in range(0, maxlen + 1):
+            for hist in itertools.product(alpha, repeat=n):
+                res["histories"] += 1
+                res["events"] += n
+                info = dict(info0, history=[h["type"] for h in hist])
+                count[0] = 0
+                try:
+                    signal.signal(signal.SIGALRM, _alarm)
+                    signal.alarm(30)
+                    outs, state = run_history(rt, hist, loop, budget)
+                except (seams.StepBudgetExceeded, WallClockExceeded) as e:
+                    res["viol"].append((f"non-termination:after-escaping-error:{watcher}", f"{type(e).__name__} {e}; history {info['history']}", info))
+                    loop.close()
+                    loop = asyncio.new_event_loop()
+                    break
+                except Exception as e:
+                    res["viol"].append((f"exception-escapes-process_events:after-{'second-' if count[0] > 1 else ''}escaping-error:{watcher}",
+                                        f"{type(e).__name__}: {e}; history {info['history']}; errors injected {count[0]}", info))
+                    continue
+                finally:
+                    signal.alarm(0)
+                res["injected_errors"] += count[0]
+                flat = [o for step in outs for o in step]
+                reached = pos == "at-start" or "E1" in info["history"]
+                if reached and count[0] == 0:
+                    res["viol"].append(("harness:injected-error-not-reached", f"history {info['history']} outputs {outs}", info))
+                if reached and watcher == "plain" and "W2" not in flat:  # (a faulty watcher's own output is discarded with the step that raised)
+                    res["viol"].append((f"colang-error-not-reported:escaping-error:{watcher}",
+                                        f"an error escaped run_to_completion but the flow matching ColangError did not react; history {info['history']} outputs {outs}", info))
+    finally:
+        sm._finish_flow = orig
+        loop.close()
+    seen, uniq = set(), []
+    for v in res["viol"]:
+        if v[0] not in seen:
+            seen.add(v[0])
+            uniq.append(v)
+    res["viol"] = uniq
+    return res
+
+
 class WallClockExceeded(BaseException):
     pass
 
@@ -494,6 +584,15 @@ def run(rep, tier):
             rep.violation(sig, what, info)
     for k, v in rr.items():
         rep.set("rounds_" + k, v)
+    xs = {"programs": 0, "histories": 0, "events": 0, "injected_errors": 0}
+    xt = [(w, ws, pos, 2 if tier == "quick" else 3) for w in X_WATCHERS for ws in (("start", "activate") if w != "none" else ("start",)) for pos in ("at-start", "after-E1")]
+    for r in par.pmap(x_task, xt):
+        for k in xs:
+            xs[k] += r[k]
+        for sig, what, info in r["viol"]:
+            rep.violation(sig, what, info)
+    for k, v in xs.items():
+        rep.set("escaping_error_" + k, v)
     act = {"programs": 0, "histories": 0}
     for r in par.pmap(active_task, ACTIVE_BODIES):
         act["programs"] += r["programs"]; act["histories"] += r["histories"]
@@ -539,6 +638,13 @@ def replay(rp):
                   sum(1 for fs in st.flow_states.values() if sm.is_listening_flow(fs)))
             if ">200000" in row:
                 break
+        print(rp["what"])
+        return 0
+    if rp.get("engine") == "C10-X":
+        r = x_task((rp["watcher"], rp["watcher_start"], rp["position"], len(rp["history"])))
+        print(rp["source"])
+        for sig, what, _i in r["viol"]:
+            print(sig, ":", what)
         print(rp["what"])
         return 0
     if rp.get("engine") == "C10-F":
